@@ -4,7 +4,6 @@ package storage
 
 import (
 	"context"
-	"errors"
 )
 
 // ---- C15-E: write-side wrappers (Map*, Limit, Nop*Closer) forward Put options, data and errors unchanged ----
@@ -25,7 +24,7 @@ func (w *vdRecWriter) Write(p []byte) (int, error) {
 			n = len(p) - 1
 		}
 		w.wrote = append(w.wrote, p[:n]...)
-		return n, vErrInjected
+		return n, vInjected()
 	}
 	w.wrote = append(w.wrote, p...)
 	return len(p), nil
@@ -34,7 +33,7 @@ func (w *vdRecWriter) Close() error {
 	w.closed++
 	if w.closeFail {
 		w.b.faulted = true
-		return vErrInjected
+		return vInjected()
 	}
 	return nil
 }
@@ -68,7 +67,7 @@ func (b *vdRecBucket) Put(ctx context.Context, path string, opts ...PutOption) (
 	b.putChunk = o.SuggestedChunkSize()
 	if b.putFail {
 		b.faulted = true
-		return nil, vErrInjected
+		return nil, vInjected()
 	}
 	return b.writer, nil
 }
@@ -78,7 +77,7 @@ func (b *vdRecBucket) Delete(ctx context.Context, path string) error {
 	b.deletePath = path
 	if b.deleteFail {
 		b.faulted = true
-		return vErrInjected
+		return vInjected()
 	}
 	return nil
 }
@@ -88,7 +87,7 @@ func (b *vdRecBucket) DeleteAll(ctx context.Context, prefix string) error {
 	b.deleteAllPath = prefix
 	if b.deleteFail {
 		b.faulted = true
-		return vErrInjected
+		return vInjected()
 	}
 	return nil
 }
@@ -101,6 +100,7 @@ func (b *vdRecBucket) SetExternalAndLocalPathsSupported() bool { return false }
 // *same* options; written bytes reach the delegate's object unchanged; errors of the delegate's Put/Write/Close/
 // Delete/DeleteAll come back to the caller; Close reaches the delegate exactly once.
 func VerifLemma_C15E_WriteWrappers() {
+	vReset()
 	rec := &vdRecBucket{putFail: verifNondetBool(), deleteFail: verifNondetBool()}
 	rec.writer = &vdRecWriter{b: rec, writeFail: verifNondetBool(), closeFail: verifNondetBool()}
 	var wb WriteBucket
@@ -147,7 +147,7 @@ func VerifLemma_C15E_WriteWrappers() {
 		verifAssert((werr != nil) == rec.writer.writeFail, "Write fails iff the delegate's Write fails")
 		verifAssert(n == len(rec.writer.wrote) && string(rec.writer.wrote) == string(data[:n]), "the written bytes reach the delegate's object unchanged, n is the delegate's count")
 		if werr != nil {
-			verifAssert(errors.Is(werr, vErrInjected), "the delegate's Write error is in the chain")
+			verifAssert(vIsInjected(werr), "the delegate's Write error is in the chain")
 		}
 		cerr := w.Close()
 		verifAssert(rec.writer.closed == 1, "Close reaches the delegate's object exactly once")
@@ -166,6 +166,7 @@ func VerifLemma_C15E_WriteWrappers() {
 // delegate, n=0) iff size+len > limit; otherwise it goes to the delegate and the bucket size grows by the number of
 // bytes the delegate actually took (short write). A refused or failed write is always reported.
 func VerifLemma_C15E_LimitWriteBucket() {
+	vReset()
 	rec := &vdRecBucket{}
 	rec.writer = &vdRecWriter{b: rec, writeFail: verifNondetBool()}
 	limit := verifNondetChoice(5) - 1 // -1 (same as 0) .. 3
